@@ -1,7 +1,9 @@
 package worlds
 
 import (
+	"context"
 	"fmt"
+	"time"
 	"io"
 	stdlog "log"
 	"net/http"
@@ -12,10 +14,14 @@ import (
 
 	"github.com/ethereum/go-ethereum/common"
 	"github.com/go-chi/chi/v5/middleware"
+	"github.com/jackc/pgx/v4/pgxpool"
 
+	"github.com/shutter-network/rolling-shutter/rolling-shutter/medley/db"
+	"github.com/shutter-network/rolling-shutter/rolling-shutter/keyper/database"
 	"github.com/shutter-network/rolling-shutter/rolling-shutter/keyper/kprapi"
 	"github.com/shutter-network/rolling-shutter/rolling-shutter/medley/verifhook"
 
+	"verif/sim/pgsim"
 	"verif/sim/simkit"
 )
 
@@ -23,9 +29,9 @@ func init() {
 	simkit.Register(&simkit.Property{
 		ID: "C18", Level: "exploration", Bubble: true, Run: runC18,
 		Rule: "World E: the real kprapi router (chi, OapiRequestValidator, ConfigMiddleware, generated handlers; obtained through a verif hook) inside a synctest bubble, with consumer goroutines on the decryption-trigger and shutdown channels. An adversarial HTTP client sends 10-40 requests per run: methods {GET,POST,PUT,DELETE,PATCH,HEAD,OPTIONS,post,TRACE} x paths generated from the OpenAPI templates by parameter substitution and spelling mutations (prefix variants /v1 /v1/v1 /V1 none, trailing and duplicate slashes, percent-encoded letters and slashes, case changes, dot segments, query strings, path parameters that spell other operations), with and without a valid JSON body, write operations enabled or disabled per run; every request is repeated under 3 map iteration orders of the spec's path map (overlay seam). Oracles: with writes disabled nothing is ever received on the trigger or shutdown channel; GET /v1/ping stays reachable; with writes enabled the canonical POSTs do reach the channels (detector sanity); the status of a (method,target) is the same under every map order. NOTE: apart from the map-order dimension this is seeded input sampling. Non-trivial = a run with writes disabled containing a request that targets a write operation by some spelling; distinct = distinct trace hashes among those.",
-		Assumptions: []string{"read-only endpoints that need the database (eons, decryptionKey) are exercised for routing only (nil pool; chi's Recoverer turns the handler's nil dereference into 500, which still proves the handler was reached)"},
+		Assumptions: []string{"in nine of ten runs the read-only endpoints that need the database (eons, decryptionKey) are exercised for routing only (nil pool; chi's Recoverer turns the handler's nil dereference into 500, which still proves the handler was reached); the tenth serves them from pgsim and requires that no request changes a row"},
 		Real:        []string{"kprapi.Server.setupRouter/setupAPIRouter", "kproapi.ConfigMiddleware/findOperation", "generated chi handlers", "chi-middleware.OapiRequestValidator"},
-		Stub:        []string{"TCP listener (httptest recorder)", "database pool (nil)"},
+		Stub:        []string{"TCP listener (httptest recorder)", "database pool (nil, or pgsim in a tenth of the runs)"},
 		QuickRuns:   6000, ThoroughRuns: 150000, QuickMinimize: 200, ThoroughMinimize: 1000,
 	})
 }
@@ -50,7 +56,36 @@ func runC18(r *simkit.Run) {
 		c18Silenced = true
 	}
 	write := c.Chance(250, "write-enabled")
-	srv := kprapi.NewHTTPService(nil, c18cfg{write: write}, nil)
+	// a tenth of the runs serve the database-backed read-only operations from a real pool (pgsim,
+	// core keyper schema, one eon and one stored key): no request may change a row
+	var pool *pgxpool.Pool
+	var dbsrv *pgsim.Server
+	if c.Chance(100, "with-database") {
+		ctx, cancel := context.WithCancel(context.Background())
+		dbsrv = pgsim.NewServer()
+		var err error
+		pool, err = dbsrv.NewPool(ctx, 2)
+		if err != nil {
+			r.InfraFail("pgsim pool: %v", err)
+		}
+		if err := db.InitDB(ctx, pool, database.Definition.Name()+"-sim", database.Definition); err != nil {
+			r.InfraFail("InitDB: %v", err)
+		}
+		q := database.New(pool)
+		if err := q.InsertEon(ctx, database.InsertEonParams{Eon: 1, Height: 0, ActivationBlockNumber: 0, KeyperConfigIndex: 1}); err != nil {
+			r.InfraFail("InsertEon: %v", err)
+		}
+		if _, err := q.InsertDecryptionKey(ctx, database.InsertDecryptionKeyParams{Eon: 1, EpochID: common.FromHex(c18Epoch), DecryptionKey: []byte{1, 2, 3}}); err != nil {
+			r.InfraFail("InsertDecryptionKey: %v", err)
+		}
+		defer func() {
+			pool.Close()
+			cancel()
+			time.Sleep(2 * time.Second) // pgxpool's destroy sleepers must leave the bubble
+		}()
+		r.Probe("runs-with-database")
+	}
+	srv := kprapi.NewHTTPService(pool, c18cfg{write: write}, nil)
 	router := srv.VerifRouter()
 	var nTrig, nShut atomic.Int64
 	stop := make(chan struct{})
@@ -122,6 +157,10 @@ func runC18(r *simkit.Run) {
 		r.Probe("write-enabled-runs")
 	}
 	baseTrig, baseShut := nTrig.Load(), nShut.Load()
+	var dbHash [32]byte
+	if dbsrv != nil {
+		dbHash = dbsrv.Hash()
+	}
 
 	methods := []string{"POST", "GET", "PUT", "DELETE", "PATCH", "HEAD", "OPTIONS", "post", "TRACE"}
 	templates := []string{"/shutdown", "/decryptionTrigger", "/ping", "/eons", "/decryptionKey/{eon}/{epochID}"}
@@ -186,6 +225,14 @@ func runC18(r *simkit.Run) {
 		}
 		verifhook.Order = nil
 		r.Eventf("%s %s body=%t -> %v", method, target, body != "", codes)
+		if dbsrv != nil {
+			if h := dbsrv.Hash(); h != dbHash {
+				r.Fail("http-request-changed-the-database", "db", "%s %s (body=%t, write enabled=%t) changed the keyper database", method, target, body != "", write)
+			}
+			if codes[0] == 200 && ti >= 3 {
+				r.Probe("db-backed-read-served")
+			}
+		}
 		r.Probe(fmt.Sprintf("status-%d", codes[0]))
 		if codes[0] != codes[1] || codes[0] != codes[2] {
 			r.Fail("decision-depends-on-map-order", "status", "%s %s answered %v under different map iteration orders", method, target, codes)
